@@ -224,6 +224,7 @@ impl<T: FileStore> SendTransaction<T> {
         &&& self.prompt == o.prompt && self.naks == o.naks && self.eof == o.eof && self.header == o.header
         &&& self.sent_file_size == o.sent_file_size && self.metadata == o.metadata
         &&& self.file_handle == o.file_handle
+        &&& self.delivery_code == o.delivery_code && self.file_status == o.file_status
     }
 }
 
